@@ -170,4 +170,57 @@ theorem decodeCanonical_sound (M : Meta) (buf : Bytes) (fs : List (Nat × Bytes)
           exact (eq_of_beq hc).symm
       · simp [hc] at h
 
+/-- a decoded field list (ascending bits, table sizes) is the field list of its own map -/
+theorem mapOfList_of_sorted (M : Meta) (fs : List (Nat × Bytes)) (hs : Sorted fs)
+    (hb : ∀ f ∈ fs, f.1 < M.max ∧ f.2.length = M.size f.1) :
+    sized M (mapOfList fs) ∧ fieldList M (mapOfList fs) = fs := by
+  have htable : ∀ c, mapOfList fs c = match fs.find? (fun f => f.1 == c) with
+      | some f => some f.2
+      | none => none := fun c => by
+    have := lastWrite_sorted fs FMap.empty c hs
+    simpa [mapOfList, FMap.empty] using this
+  have hfl : fieldList M (mapOfList fs) = fs :=
+    fieldsFrom_of_table _ M.max 0 fs hs (fun f hf => by have := hb f hf; omega) (fun c _ _ => htable c)
+  refine ⟨?_, hfl⟩
+  intro b v hbv
+  rw [htable b] at hbv
+  cases hfind : fs.find? (fun f => f.1 == b) with
+  | none => simp [hfind] at hbv
+  | some f =>
+    simp only [hfind, Option.some.injEq] at hbv
+    have hmem := List.mem_of_find?_eq_some hfind
+    have hkey := List.find?_some hfind
+    simp only [beq_iff_eq] at hkey
+    have := hb f hmem
+    subst hbv
+    rw [← hkey]
+    omega
+
+/-- what the oracle accepts as a *well-aligned parsed header*: the payload is `layL M F fs` for a well-formed frame
+    `F` (present-word chain + foreign bytes) and the field list `fs` of a sized map -/
+theorem decodeLayout_sound (M : Meta) (buf : Bytes) (F : Frame) (fs : List (Nat × Bytes))
+    (h : decodeLayout M buf = some (F, fs)) :
+    F.ok M ∧ sized M (mapOfList fs) ∧ buf = layL M F (fieldList M (mapOfList fs)) ∧ fieldList M (mapOfList fs) = fs := by
+  unfold decodeLayout at h
+  cases hk : chainLen (buf.length / 4 + 1) buf 0 with
+  | none => simp [hk] at h
+  | some k =>
+    simp only [hk] at h
+    cases hd : decodeFields M buf (read32 buf 0) M.max 0 (8 + 4 * k) with
+    | none => simp [hd] at h
+    | some fs' =>
+      simp only [hd] at h
+      split at h
+      · rename_i hcond
+        simp only [Option.some.injEq, Prod.mk.injEq] at h
+        obtain ⟨hF, hfs⟩ := h
+        subst hfs
+        obtain ⟨hs, hb⟩ := decodeFields_sound M buf _ _ _ _ _ hd
+        obtain ⟨hsz, hfl⟩ := mapOfList_of_sorted M fs' hs (fun f hf => by have := hb f hf; omega)
+        rw [← hF]
+        refine ⟨hcond.2, hsz, ?_, hfl⟩
+        rw [hfl]
+        exact (eq_of_beq hcond.1).symm
+      · cases h
+
 end Tins.RT
